@@ -139,7 +139,8 @@ class GenotypeVcf(BCheck):
         from whatshap.cli.genotype import run_genotype
         logging.disable(logging.CRITICAL)
         r = random.Random(inp["seed"])
-        sc = BAM.generate(r, n_samples=(1, 1), kinds=("snv",), depth=(1, 6), read_len=(30, 100), n_variants=(3, 8), hom_frac=0.3, softclip=0.0, eqx=0.0)
+        # a third of the scenarios are deep (very confident calls: the other genotypes' mass is far below double-precision epsilon of 1)
+        sc = BAM.generate(r, n_samples=(1, 1), kinds=("snv",), depth=(8, 14) if inp["seed"] % 3 == 0 else (1, 6), read_len=(30, 100), n_variants=(3, 8), hom_frac=0.3, softclip=0.0, eqx=0.0)
         d = tempfile.mkdtemp(prefix="c08_")
         try:
             paths = BAM.materialize(sc, d)
@@ -180,12 +181,12 @@ class GenotypeVcf(BCheck):
                         return dict(expected="%s: GT %s (GL %s, threshold probability %.6f)" % (where, want, call["GL"], thr), observed=gt, clause="gt-vs-gl",
                                     constant=inp["constant"], T=inp["T"])
                     if want != "./.":
-                        other = 1.0 - srt[2]
+                        other = srt[0] + srt[1]        # the mass of the other genotypes, summed from their own GL values (accurate for tiny masses too)
                         gq = call.get("GQ", ".")
                         if gq in (".", None):
                             return dict(expected="%s: GQ present" % where, observed=gq, clause="gq")
                         exp = 10000 if other <= 0 else min(round(-10.0 * __import__("math").log10(other)), 10000)
-                        if abs(int(gq) - exp) > 1 and other > 1e-5:
+                        if abs(int(gq) - exp) > 1 and other > 1e-300:
                             return dict(expected="%s: GQ %d" % (where, exp), observed=gq, clause="gq")
             return None
         finally:
